@@ -67,16 +67,16 @@ type Exec struct {
 }
 
 type sched struct {
-	mu       sync.Mutex // protects nothing across controlled threads (one runs at a time); used for handoff only
-	threads  []*thread
-	cur      *thread
-	yield    chan *thread // a controlled thread reports "I am at a point" (or finished)
-	prefix   []int
-	exec     *Exec
-	epoch    int
-	shadow   map[uintptr]*shadowCell
+	mu        sync.Mutex // protects nothing across controlled threads (one runs at a time); used for handoff only
+	threads   []*thread
+	cur       *thread
+	yield     chan *thread // a controlled thread reports "I am at a point" (or finished)
+	prefix    []int
+	exec      *Exec
+	epoch     int
+	shadow    map[uintptr]*shadowCell
 	mapShadow map[uintptr]*shadowCell
-	maxSteps int
+	maxSteps  int
 }
 
 var s *sched
